@@ -603,3 +603,114 @@ Proof.
   destruct (Z.gtb_spec (s - SKIPHDR) cap); [discriminate|].
   injection H as <- _. lia.
 Qed.
+
+(* ======================================================================== *)
+(* ZSTD_decompressBound over concatenations of arbitrary byte strings          *)
+(* ======================================================================== *)
+Lemma bytes_ok_app : forall a b, bytes_ok (a ++ b) -> bytes_ok a /\ bytes_ok b.
+Proof. intros a b H. unfold bytes_ok in *. apply Forall_app in H. exact H. Qed.
+
+(* ZSTD_decompressBound over a concatenation: when the walk over [a] completes (a is a whole number of frames,
+   valid or not in content), the walk over a ++ b continues on b with the accumulated bound - for ALL byte strings *)
+Lemma decompress_bound_loop_concat : forall fuel a b acc va f2 f3,
+  bytes_ok (a ++ b) ->
+  decompress_bound_loop fuel a acc = Some va ->
+  (length (a ++ b) <= length f2)%nat -> (length b <= length f3)%nat ->
+  decompress_bound_loop f2 (a ++ b) acc = decompress_bound_loop f3 b va.
+Proof.
+  induction fuel as [|g fuel IH]; intros a b acc va f2 f3 B H L2 L3.
+  - destruct a; [|discriminate]. cbn [decompress_bound_loop] in H. injection H as <-. cbn [app] in *.
+    apply decompress_bound_loop_fuel; assumption.
+  - destruct a as [|x t].
+    + cbn [decompress_bound_loop] in H. injection H as <-. cbn [app] in *. apply decompress_bound_loop_fuel; assumption.
+    + cbn [decompress_bound_loop] in H.
+      destruct (bytes_ok_app _ _ B) as [Ba Bb].
+      destruct (find_frame_size_info (x :: t)) as [i|] eqn:F; [|discriminate].
+      destruct (find_frame_size_info_within _ _ Ba F) as [[P1 P2] _].
+      destruct (fsi_bound i =? CS_ERROR) eqn:Eb; [discriminate|].
+      destruct (drop_exact (x :: t) (fsi_csize i)) as [r|] eqn:D; [|discriminate].
+      destruct (drop_exact_split _ _ _ D) as [p [Ep Lp]].
+      rewrite Ep in *. rewrite <- app_assoc in *.
+      assert (Lp' : len p = fsi_csize i) by lia.
+      assert (F' : find_frame_size_info (p ++ r ++ b) = Some i).
+      { apply (find_frame_size_info_prefix p r (r ++ b) i); assumption. }
+      assert (D' : drop_exact (p ++ r ++ b) (fsi_csize i) = Some (r ++ b)) by (apply drop_exact_app_eq; lia).
+      destruct f2 as [|g2 f2].
+      { cbn [length] in L2. rewrite app_length in L2. destruct p; [rewrite len_nil in Lp'; lia|cbn [length] in L2; lia]. }
+      destruct p as [|y p']; [rewrite len_nil in Lp'; lia|].
+      cbn [app decompress_bound_loop]. cbn [app] in F', D'. rewrite F', Eb, D'.
+      apply (IH r b _ va f2 f3); try assumption.
+      * apply bytes_ok_app in B. tauto.
+      * cbn [app length] in L2. rewrite !app_length in *. lia.
+Qed.
+
+Theorem decompress_bound_concat : forall a b va, bytes_ok (a ++ b) ->
+  decompress_bound a = Some va ->
+  decompress_bound (a ++ b) = decompress_bound_loop b b va.
+Proof.
+  intros a b va B H. unfold decompress_bound in *.
+  apply (decompress_bound_loop_concat a a b 0 va); auto.
+Qed.
+
+
+(* ======================================================================== *)
+(* in-place decoding: any larger buffer; the ZSTD_DECOMPRESSION_MARGIN macro  *)
+(* ======================================================================== *)
+(* in-place decoding is sound for EVERY buffer at least as large as decoded size + margin (input at its end) *)
+Theorem inplace_any_larger_buffer : forall fl B,
+  Forall wf_frame fl -> Forall non_expanding fl ->
+  regen_frames fl + margin_of fl <= B ->
+  inplace_decode fl B = Some (regen_frames fl, B).
+Proof.
+  intros fl B Hwf Hne HB. unfold inplace_decode.
+  pose proof (len_ser_frames_gain fl Hwf) as Hlen. pose proof (gain_frames_nonneg fl Hne) as Hg.
+  pose proof (bound_frames_ge_regen fl Hwf) as Hr.
+  rewrite (inplace_frames_ok (maxbs_frames fl)); try assumption.
+  - f_equal. f_equal; lia.
+  - intros h bl ck Hin. apply (maxbs_frames_bound fl h bl ck Hwf Hin).
+  - unfold margin_of in HB. lia.
+  - unfold margin_of in HB.
+    pose proof (overhead_frames_nonneg fl). pose proof (maxbs_frames_nonneg fl Hwf). lia.
+Qed.
+
+Lemma hsize_le_max : forall h, wf_hdr h -> hsize_of h <= Z.of_N Gen_Tables.c_ZSTD_FRAMEHEADERSIZE_MAX.
+Proof.
+  intros h (Hd & _ & Hf & _). rewrite (hsize_formula h Hd Hf). rewrite MIN_INPUT_val.
+  change (Z.of_N Gen_Tables.c_ZSTD_FRAMEHEADERSIZE_MAX) with 18.
+  destruct did_size_vals as (D0 & D1 & D2 & D3). destruct fcs_size_vals as (C0 & C1 & C2 & C3).
+  assert (Hdc : h_didc h = 0 \/ h_didc h = 1 \/ h_didc h = 2 \/ h_didc h = 3) by lia.
+  assert (Hfc : h_fcsc h = 0 \/ h_fcsc h = 1 \/ h_fcsc h = 2 \/ h_fcsc h = 3) by lia.
+  destruct Hdc as [E|[E|[E|E]]]; rewrite E; rewrite ?D0, ?D1, ?D2, ?D3;
+  destruct Hfc as [E2|[E2|[E2|E2]]]; rewrite E2; rewrite ?C0, ?C1, ?C2, ?C3;
+  destruct (h_single h); cbn; lia.
+Qed.
+
+(* ZSTD_DECOMPRESSION_MARGIN(originalSize, blockSize): for a single frame that regenerates originalSize > 0 bytes in at
+   most ceil(originalSize / blockSize) blocks, none larger than what it regenerates, whose block-size limit is at most
+   blockSize, the macro's margin is at least the frame's own margin - so in-place decoding with it is sound *)
+Theorem macro_margin_covers_frame : forall h bl ck bs,
+  wf_frame (ZFrame h bl ck) -> 0 < bs -> bsmax_of h <= bs ->
+  0 < regen_blocks bl -> len bl <= (regen_blocks bl + bs - 1) / bs ->
+  margin_of [ZFrame h bl ck] <= DECOMPRESSION_MARGIN (regen_blocks bl) bs.
+Proof.
+  intros h bl ck bs Hwf Hbs Hb Hpos Hnb. destruct Hwf as (Hh & _).
+  pose proof (hsize_le_max h Hh) as Hhs.
+  unfold margin_of, DECOMPRESSION_MARGIN. cbn [overhead_frames overhead_of maxbs_frames].
+  destruct (Z.eqb_spec (regen_blocks bl) 0); [lia|].
+  destruct (h_chk h); lia.
+Qed.
+
+Theorem inplace_macro_margin_sound : forall h bl ck bs B,
+  wf_frame (ZFrame h bl ck) -> Forall non_expanding_blk bl -> 0 < bs -> bsmax_of h <= bs ->
+  0 < regen_blocks bl -> len bl <= (regen_blocks bl + bs - 1) / bs ->
+  regen_blocks bl + DECOMPRESSION_MARGIN (regen_blocks bl) bs <= B ->
+  inplace_decode [ZFrame h bl ck] B = Some (regen_blocks bl, B).
+Proof.
+  intros h bl ck bs B Hwf Hne Hbs Hb Hpos Hnb HB.
+  pose proof (macro_margin_covers_frame h bl ck bs Hwf Hbs Hb Hpos Hnb) as Hm.
+  replace (regen_blocks bl) with (regen_frames [ZFrame h bl ck]) at 1 by (cbn [regen_frames regen_frame]; lia).
+  apply inplace_any_larger_buffer.
+  - constructor; [assumption|constructor].
+  - constructor; [exact Hne|constructor].
+  - cbn [regen_frames regen_frame]. lia.
+Qed.
